@@ -205,7 +205,9 @@ def run(tier):
     rare = [("wwr", 3, "C_WWR", (0, 0, 0))] if tier == "quick" else []     # thorough tours the 3-thread graph wrt completely
     rel = [(t, sp) for t, sp in specs if t in (("dfs_wr", "cov4", "hold_wrw") if tier == "quick" else ("dfs_wr", "dfs_wwr", "cov4", "hold_wrw"))]
     return LC.run(tier, tours, configs, configs_if_differs, specs, stress=stress, rare_tours=rare, release_specs=rel,
-                  probe_scenarios=["rww_before", "rwr_before", "rww_after", "rwr_after"])
+                  probe_scenarios=["rww_before", "rwr_before", "rww_after", "rwr_after"],
+                  directed=[("tog_www", 3, "C_WWW", (0, 0, 0), "NotifyToggle <- ToggleOn",
+                             "writer_notify as a toggle instead of a counter (NotifyDistinct): ABA inside a writer's sample->wait window")])
 
 
 def replay(path):
